@@ -107,19 +107,26 @@ TList == /\ Is("list") /\ pubs # <<>>
 TQuery == /\ Is("query") /\ UNCHANGED <<sid, issued, no, picked, pubs, shown, lastReset, dev, ended>>
 
 (* C08: at quiescence the list is the fresh filter of the current query over everything loaded *)
+(* e.wcfg: the configuration with every exclusion the USER asked for (terminal side).  If the shown list is the    *)
+(* filter under the coordinator's configuration but not under the user's, an exclusion was lost on the way: the    *)
+(* one-slot EvtSearchNew box was overwritten by the next query change before the coordinator saw it - deviation    *)
+(* LostExclusion (finding F21).                                                                                     *)
 Converged(e) == /\ shown # None /\ shown.final /\ shown.count = e.total /\ shown.sort = e.sort
-                /\ shown.res = Oracle[Key(sid, e.q, e.total, e.sort, lastReset.cfg)]
+                /\ shown.res = Oracle[Key(sid, e.q, e.total, e.sort, e.wcfg)]
                 /\ lastReset # None /\ shown.no = lastReset.no
                 /\ e.getres = shown.res /\ e.matchCount = (IF Len(shown.res) = 2 /\ shown.res[1] < 0 THEN -shown.res[1] ELSE Len(shown.res))
 TEnd == /\ Is("end") /\ issued["retry"] = <<>> /\ issued["reset"] = <<>> /\ picked = None
-        /\ (dev = {} => Converged(Ev))
+        /\ \/ (dev = {} => Converged(Ev)) /\ dev' = dev
+           \/ /\ dev = {} /\ ~Converged(Ev) /\ lastReset # None /\ Ev.wcfg # lastReset.cfg
+              /\ Converged([Ev EXCEPT !.wcfg = lastReset.cfg])
+              /\ dev' = {"LostExclusion"}
         /\ ended' = TRUE
-        /\ UNCHANGED <<sid, issued, no, picked, pubs, shown, lastReset, dev>>
+        /\ UNCHANGED <<sid, issued, no, picked, pubs, shown, lastReset>>
 
 Next == TStart \/ TReset \/ TPick \/ TCacheHit \/ TCancelled \/ TPublish \/ TList \/ TQuery \/ TEnd
 Spec == Init /\ [][Next]_vars
 
 Accepted == TLCGet("stats").diameter - 1 = Len(TraceLog)
 (* reported per session when its end is reached: with or without the help of a deviation action *)
-DevSeen == ended => PrintT(<<"END", sid, IF dev = {} THEN 0 ELSE IF dev = {"StaleChunkCache"} THEN 2 ELSE 1>>)
+DevSeen == ended => PrintT(<<"END", sid, IF dev = {} THEN 0 ELSE IF dev = {"StaleChunkCache"} THEN 2 ELSE IF dev = {"LostExclusion"} THEN 3 ELSE 1>>)
 =============================================================================
